@@ -1,1 +1,113 @@
-//! placeholder
+//! Harnesses compiled inside `crate::capsule` (C04, C11, C13).
+#![allow(dead_code, unused_imports, missing_docs)]
+use super::capsules::CloseWebTransportSession;
+use super::*;
+use crate::verif_kani::spec;
+use std::borrow::Cow;
+
+#[kani::proof_for_contract(CapsuleKind::parse)]
+pub fn c_capsulekind_parse() {
+    let id: VarInt = kani::any();
+    let r = CapsuleKind::parse(id);
+    kani::cover!(r.is_some());
+    kani::cover!(r.is_none());
+}
+
+/// Every DATA-frame payload of <= 16 bytes: `Some` iff it is `varint(0x2843) varint(L) L bytes ...`
+/// (RFC 9297 §3.2); the capsule payload is exactly the L declared bytes; every other type
+/// (unknown / GREASE capsules) and every truncation is `None`; never panics.
+#[kani::proof]
+#[kani::unwind(10)]
+pub fn p_capsule_with_frame() {
+    let b: [u8; 16] = kani::any();
+    let len: usize = kani::any();
+    kani::assume(len <= 16);
+    let frame = Frame::new_data(Cow::Borrowed(&b[..len]));
+    let got = Capsule::with_frame(&frame);
+    // reference
+    let mut exp: Option<(usize, usize)> = None; // (payload offset, payload len)
+    if len > 0 && len >= spec::varint_len_from_first(b[0]) {
+        let n1 = spec::varint_len_from_first(b[0]);
+        let t = spec::varint_value(&b, n1);
+        if t == spec::CAPSULE_CLOSE_WT_SESSION && len > n1 && len - n1 >= spec::varint_len_from_first(b[n1]) {
+            let n2 = spec::varint_len_from_first(b[n1]);
+            let l = spec::varint_value(&b[n1..], n2);
+            if l <= (len - n1 - n2) as u64 {
+                exp = Some((n1 + n2, l as usize));
+            }
+        }
+    }
+    match (exp, &got) {
+        (None, None) => {}
+        (Some((off, l)), Some(c)) => {
+            assert!(matches!(c.kind(), CapsuleKind::CloseWebTransportSession));
+            assert!(c.payload().len() == l);
+            assert!(l == 0 || c.payload().as_ptr() == b[off..].as_ptr());
+        }
+        _ => panic!("Capsule::with_frame disagrees with RFC 9297 3.2"),
+    }
+    kani::cover!(got.is_some());
+    kani::cover!(got.is_none() && len > 4);
+}
+
+fn utf8_verdict_stub(v: &[u8]) -> Result<&str, core::str::Utf8Error> {
+    if kani::any() {
+        // SAFETY (verification stub): the caller only copies the bytes into a String
+        Ok(unsafe { core::str::from_utf8_unchecked(v) })
+    } else {
+        // (from_utf8_mut is a different function, not affected by the stub)
+        let mut bad = [0xffu8];
+        Err(core::str::from_utf8_mut(&mut bad).unwrap_err())
+    }
+}
+
+/// CLOSE_WEBTRANSPORT_SESSION, length boundary, for payload lengths 0..=1030 (UTF-8 validation
+/// replaced by an arbitrary verdict): `Ok` implies 4 <= len <= 4 + 1024 and a valid-UTF-8 verdict;
+/// the error code is the big-endian first four bytes for all 2^32 codes; the reason has exactly
+/// len - 4 bytes; every error is H3_DATAGRAM_ERROR (protocol failure, never an application close).
+#[kani::proof]
+#[kani::unwind(3)]
+#[kani::stub(core::str::from_utf8, utf8_verdict_stub)]
+pub fn p_close_wt_session_length_and_code() {
+    let b: [u8; 1030] = kani::any();
+    let len: usize = kani::any();
+    kani::assume(len <= 1030);
+    let capsule = Capsule { kind: CapsuleKind::CloseWebTransportSession, payload: &b[..len] };
+    match CloseWebTransportSession::with_capsule(&capsule) {
+        Ok(c) => {
+            assert!(len >= 4 && len <= 4 + spec::CLOSE_REASON_MAX);
+            let code = ((b[0] as u32) << 24) | ((b[1] as u32) << 16) | ((b[2] as u32) << 8) | b[3] as u32;
+            assert!(c.error_code().into_inner() == code as u64);
+            assert!(c.reason().len() == len - 4);
+        }
+        Err(e) => {
+            assert!(e.to_code().into_inner() == spec::error_code::H3_DATAGRAM_ERROR);
+        }
+    }
+    kani::cover!(len == 1028);
+    kani::cover!(len == 1029);
+    kani::cover!(len == 3);
+}
+
+/// Same with the REAL `core::str::from_utf8`, reasons of <= 4 bytes: `Ok` iff 4 <= len and the
+/// reason is valid UTF-8; reason bytes are returned unchanged.
+#[kani::proof]
+#[kani::unwind(12)]
+pub fn p_close_wt_session_reason_bytes() {
+    let b: [u8; 8] = kani::any();
+    let len: usize = kani::any();
+    kani::assume(len <= 8);
+    let capsule = Capsule { kind: CapsuleKind::CloseWebTransportSession, payload: &b[..len] };
+    let got = CloseWebTransportSession::with_capsule(&capsule);
+    let valid = len >= 4 && core::str::from_utf8(&b[4..len]).is_ok();
+    assert!(got.is_ok() == valid);
+    if let Ok(c) = got {
+        assert!(c.reason().len() == len - 4);
+        let i: usize = kani::any();
+        if i < len - 4 {
+            assert!(c.reason().as_bytes()[i] == b[4 + i]);
+        }
+    }
+    kani::cover!(valid && len == 8);
+    kani::cover!(!valid && len >= 4);
+}
